@@ -8,6 +8,7 @@ import (
 	"github.com/goghcrow/yae/closure"
 	"github.com/goghcrow/yae/debug"
 	"github.com/goghcrow/yae/parser/ast"
+	"github.com/goghcrow/yae/parser/oper"
 	"github.com/goghcrow/yae/types"
 	"github.com/goghcrow/yae/val"
 	"github.com/goghcrow/yae/zzverif/sv"
@@ -48,72 +49,107 @@ func (r *dbgRef) callee(c *ast.CallExpr) *val.FunVal {
 	return r.e.Rt.MustGetPolyFuns(c.Resolved)[c.Index]
 }
 
-func (r *dbgRef) walk(x ast.Expr) {
+// add records v at its term's own column, or at the next free column to its
+// right when that one is taken (a term evaluated again)
+func (r *dbgRef) add(v *val.Val, col int) {
+	for {
+		taken := false
+		for _, e := range r.out {
+			if e.col == col {
+				taken = true
+			}
+		}
+		if !taken {
+			break
+		}
+		col++
+	}
+	r.out = append(r.out, dbgEntry{v, col})
+}
+
+// walk follows the checked tree x (for overload resolution and laziness) and,
+// in parallel, the reference desugaring c of the parsed tree, from which the
+// columns are taken (so that a column lost or moved by trans.Desugar shows).
+func (r *dbgRef) walk(x, c ast.Expr) {
 	if r.fail {
 		return
 	}
 	switch n := x.(type) {
 	case *ast.ListExpr:
-		for _, el := range n.Elems {
-			r.walk(el)
+		for i, el := range n.Elems {
+			r.walk(el, c.(*ast.ListExpr).Elems[i])
 		}
 	case *ast.MapExpr:
-		for _, p := range n.Pairs {
-			r.walk(p.Key)
-			r.walk(p.Val)
+		for i, p := range n.Pairs {
+			r.walk(p.Key, c.(*ast.MapExpr).Pairs[i].Key)
+			r.walk(p.Val, c.(*ast.MapExpr).Pairs[i].Val)
 		}
 	case *ast.ObjExpr:
-		for _, f := range n.Fields {
-			r.walk(f.Val)
+		for i, f := range n.Fields {
+			r.walk(f.Val, c.(*ast.ObjExpr).Fields[i].Val)
 		}
 	case *ast.IdentExpr:
-		r.out = append(r.out, dbgEntry{r.value(n), n.Col + 1})
+		r.add(r.value(n), c.(*ast.IdentExpr).Pos.Col+1)
 	case *ast.SubscriptExpr:
-		r.walk(n.Var)
-		r.walk(n.Idx)
-		r.out = append(r.out, dbgEntry{r.value(n), int(n.DBGCol) + 1})
+		cc := c.(*ast.SubscriptExpr)
+		r.walk(n.Var, cc.Var)
+		r.walk(n.Idx, cc.Idx)
+		r.add(r.value(n), int(cc.DBGCol)+1)
 	case *ast.MemberExpr:
-		r.walk(n.Obj)
-		r.out = append(r.out, dbgEntry{r.value(n), int(n.DBGCol) + 1})
+		cc := c.(*ast.MemberExpr)
+		r.walk(n.Obj, cc.Obj)
+		r.add(r.value(n), int(cc.DBGCol)+1)
 	case *ast.CallExpr:
+		cc := c.(*ast.CallExpr)
 		f := r.callee(n)
+		arg := func(i int) { r.walk(n.Args[i], cc.Args[i]) }
 		switch {
 		case f == nil:
-			r.walk(n.Callee)
-			for _, a := range n.Args {
-				r.walk(a)
+			r.walk(n.Callee, cc.Callee)
+			for i := range n.Args {
+				arg(i)
 			}
 		case !f.Lazy:
-			for _, a := range n.Args {
-				r.walk(a)
+			for i := range n.Args {
+				arg(i)
 			}
 		default:
-			// built-in lazy functions: condition first, then the selected operand
-			r.walk(n.Args[0])
-			c := r.value(n.Args[0])
-			if c == nil {
-				return
-			}
 			name := f.Type.Fun().Name
 			switch name {
-			case "if":
-				if c.Bool().V {
-					r.walk(n.Args[1])
-				} else {
-					r.walk(n.Args[2])
+			case "twice": // host function: forces its operand twice
+				arg(0)
+				arg(0)
+			case "thrice":
+				arg(0)
+				arg(0)
+				arg(0)
+			default:
+				// built-in lazy functions and lz: condition first, then the selected operand
+				arg(0)
+				cv := r.value(n.Args[0])
+				if cv == nil {
+					return
 				}
-			case "&&":
-				if c.Bool().V {
-					r.walk(n.Args[1])
-				}
-			case "||":
-				if !c.Bool().V {
-					r.walk(n.Args[1])
+				switch name {
+				case "if", "lz":
+					if cv.Bool().V {
+						arg(1)
+					} else {
+						arg(2)
+					}
+				case "&&":
+					if cv.Bool().V {
+						arg(1)
+					}
+				case "||":
+					if !cv.Bool().V {
+						arg(1)
+					}
 				}
 			}
 		}
 		if v := r.value(n); v != nil {
-			r.out = append(r.out, dbgEntry{v, int(n.DBGCol) + 1})
+			r.add(v, int(cc.DBGCol)+1)
 		}
 	}
 }
@@ -143,6 +179,11 @@ var dbgSources = []string{
 	"union(xs, ys) == xs",
 	"o.g.h",
 	"max(xs) - min(ys) + abs(0 - a)",
+	// terms evaluated more than once (host lazy functions that force an
+	// operand again): each value gets a column of its own
+	"twice(a)+-b", "thrice(a)+-b", "twice(a) + twice(b)", "thrice(xs[i])-a", "lz(c, twice(a), b) + a", "twice(twice(a))", "thrice(a+b)*b",
+	// a registered postfix operator (#: length of a list)
+	"a + xs#", "[1, a]#", "xs# + ys#", "-xs# * b",
 }
 
 // H19_debug: debug evaluation returns what normal evaluation returns, records
@@ -150,6 +191,20 @@ var dbgSources = []string{
 // evaluation order with their own columns, and renders without failing.
 func H19_debug() {
 	e := NewEngine()
+	e.Ops = append(e.Ops, oper.Operator{Kind: "#", BP: oper.BP_POSTFIX, Fixity: oper.POSTFIX})
+	e.Register(val.Fun(types.Fun("#", []*types.Type{tLN}, tNum), func(args ...*val.Val) *val.Val { return val.Num(float64(len(args[0].List().V))) }))
+	e.Register(val.LazyFun(types.Fun("twice", []*types.Type{tNum}, tNum), func(args ...*val.Val) *val.Val {
+		return val.Num(args[0].Fun().Call().Num().V + args[0].Fun().Call().Num().V)
+	}))
+	e.Register(val.LazyFun(types.Fun("thrice", []*types.Type{tNum}, tNum), func(args ...*val.Val) *val.Val {
+		return val.Num(args[0].Fun().Call().Num().V + args[0].Fun().Call().Num().V + args[0].Fun().Call().Num().V)
+	}))
+	e.Register(val.LazyFun(types.Fun("lz", []*types.Type{tBool, tNum, tNum}, tNum), func(args ...*val.Val) *val.Val {
+		if args[0].Fun().Call().Bool().V {
+			return args[1].Fun().Call()
+		}
+		return args[2].Fun().Call()
+	}))
 	src := dbgSources[sv.Choice("src", len(dbgSources))]
 	og := ObjT([]string{"h"}, []*types.Type{tNum})
 	ot := ObjT([]string{"f", "g"}, []*types.Type{tNum, og})
@@ -189,7 +244,12 @@ func H19_debug() {
 		}
 		return ve.Inherit(e.Rt)
 	}
-	expr, _, cls := e.Front(src, tys, names)
+	var parsed ast.Expr
+	pcls := sv.Outcome(func() { parsed = e.Parse(src) })
+	sv.Assert("parses", pcls == "ok")
+	cols := refDesugar(parsed) // columns as the parser recorded them
+	var expr ast.Expr
+	cls := sv.Outcome(func() { expr, _ = e.CheckAST(parsed, tys, names) })
 	sv.Assert("accepted", cls == "ok")
 
 	// normal evaluation
@@ -210,7 +270,7 @@ func H19_debug() {
 	entries := rec.ZZEntries()
 	if wcls == "ok" {
 		ref := &dbgRef{e: e, env: mkEnv}
-		ref.walk(expr)
+		ref.walk(expr, cols)
 		sv.Assert("reference-evaluates", !ref.fail)
 		same := len(entries) == len(ref.out)
 		if same {
@@ -222,6 +282,11 @@ func H19_debug() {
 			sv.Logf("%s: recorded %d entries, expected %d", src, len(entries), len(ref.out))
 		}
 		sv.Assert("records-exactly-the-evaluated-terms-in-order-with-their-columns", same)
+	}
+	for i := range entries {
+		for j := 0; j < i; j++ {
+			sv.Assert("no-two-recorded-values-share-a-column", entries[i].Col != entries[j].Col)
+		}
 	}
 	// rendering
 	var text string
